@@ -323,6 +323,8 @@ func bindHandle(in []byte) []byte {
 		p := reflect.New(rt)
 		if oldName == "pre" {
 			p.Elem().Set(build(T, preV(T)))
+		} else if oldName == "precap" {
+			p.Elem().Set(build(T, preCapV(T)))
 		}
 		return p
 	}
@@ -427,7 +429,11 @@ func bindHandle(in []byte) []byte {
 			if errX == nil && panicked == "" {
 				got = showValue(pg.Elem())
 			}
-			obsAdd(ep, errX == nil, got, panicked)
+			if keySpelling > 0 {
+				obsAdd("esc", ep, " ", errX == nil, got, panicked) // observations of the escaped-key text plan are marked
+			} else {
+				obsAdd(ep, errX == nil, got, panicked)
+			}
 			name := []string{"Unmarshal", "UnmarshalFromString"}[ep]
 			switch {
 			case panicked != "":
